@@ -21,7 +21,7 @@ def units(tier):
     return bulkids.units() + walk.units() + useractions.units(UA_ALL, {"lineage_inv": True})
 
 
-def bounded(tier, seed):
+def _bounded(tier, seed):
     from pyvc.native_bridge import bounded_walk
     return [bounded_walk(tier, "walk,bulk", "walk-and-bulk-assignment",
                          "real _handle_update_track_ids vs contract K1 (lineage rewritten for every node below start) and real bulk "
@@ -31,3 +31,8 @@ def bounded(tier, seed):
 def witness(label, failure, seed):
     from pyvc.native_bridge import tracks_witness
     return tracks_witness("C05", label, failure, seed)
+
+
+def bounded(tier, seed):
+    from ._common import model_checks
+    return _bounded(tier, seed) + model_checks(tier, "networkx", shape=True, seed=seed)
